@@ -411,13 +411,47 @@ Section G.
 
   (* ---------------- builders' insert_nested / insert_cfg / insert_conditional / insert_tail_loop
      (build/dfg.py _insert_nested_impl): insert_hugr under the builder's parent node, then _wire_up of the
-     image of the root: one add_link per wire (wires whose source is a sibling of the inserted root, so
-     that _wire_up_port adds no order link) and _update_port_count with the counts of the operation's
+     image of the root: per wire _wire_up_port = _ancestral_sibling of the node with respect to the wire's
+     source (NoSiblingAncestor = EOther when there is none), add_state_order(source, that ancestor) when the
+     ancestor is not the node itself (a wire from an enclosing region; add_order_link skips a link that is
+     already there), add_link(wire, node.inp(i)); then _update_port_count with the counts of the operation's
      signature (given: operations are opaque here). *)
+  (* _ancestral_sibling: while (tgt_parent := h[tgt].parent) is not None:
+                           if tgt_parent == src_parent: return tgt
+                           tgt = tgt_parent
+                         return None *)
+  Fixpoint anc_sib_from (fuel : nat) (h : hugr) (sp : option nid) (tgt : nid) : option nid + res :=
+    match fuel with
+    | 0 => inr EFuel
+    | S f =>
+        match get_node h tgt with
+        | None => inr EKey
+        | Some d =>
+            match nd_parent d with
+            | None => inl None
+            | Some tp => if option_eqb Nat.eqb (Some tp) sp then inl (Some tgt) else anc_sib_from f h sp tp
+            end
+        end
+    end.
+  Definition ancestral_sibling (h : hugr) (src tgt : nid) : option nid + res :=
+    match get_node h src with
+    | None => inr EKey
+    | Some ds => anc_sib_from (S (length (nodes h))) h (nd_parent ds) tgt
+    end.
+  Definition wire_up_port (h : hugr) (node : nid) (i : Z) (w : port) : hugr * res :=
+    match ancestral_sibling h (fst w) node with
+    | inr e => (h, e)
+    | inl None => (h, EOther)                                   (* NoSiblingAncestor *)
+    | inl (Some a) =>
+        match (if Nat.eqb a node then (h, Ok) else add_order_link h (fst w) a) with
+        | (h1, Ok) => add_link h1 w (node, i)
+        | r => r
+        end
+    end.
   Fixpoint wire_up (A : hugr) (node : nid) (i : Z) (wires : list port) : hugr * res :=
     match wires with
     | [] => (A, Ok)
-    | w :: rest => match add_link A w (node, i) with
+    | w :: rest => match wire_up_port A node i w with
                    | (A1, Ok) => wire_up A1 node (i + 1) rest
                    | r => r
                    end
